@@ -398,7 +398,8 @@ fn c07(r: &Run, rec: &StepRec) {
     // open, registered, quotable, inside the band, non-zero fee, insurance fund funded: a failure is only acceptable if the position is not
     // under-margined (for every value on this path)
     let st = &rec.pre.vamm[r.vi];
-    if !st.open || !r.w.is_vamm(r.vi) {
+    // (registration according to the harness's ledger of the owner's calls, not the fund's answer)
+    if !st.open || !r.w.registered.contains(&r.w.vamms[r.vi].to_string()) {
         return;
     }
     // "the insurance fund holds enough to cover any shortfall": a sufficient bound on what it can
